@@ -1,0 +1,84 @@
+//go:build verif
+
+package mpb
+
+import (
+	"reflect"
+	"time"
+
+	"github.com/vbauerster/mpb/v8/internal/verifhook"
+)
+
+// VerifEvent is an event point report with package private values made
+// presentable: bars stay pointers (the harness numbers them), channels
+// become addresses, everything else becomes an int64 or a string.
+type VerifEvent struct {
+	Point int
+	Bar   *Bar
+	Bar2  *Bar // second bar argument (queued-after), may be nil
+	Ints  []int64
+	Str   string
+	Ch    uintptr   // width exchange channel
+	Col   []uintptr // channels of a width column
+}
+
+func verifB2i(b bool) int64 {
+	if b {
+		return 1
+	}
+	return 0
+}
+
+// VerifSetSink installs the harness callback for event points.
+func VerifSetSink(f func(VerifEvent)) {
+	if f == nil {
+		verifhook.SetHook(nil)
+		return
+	}
+	verifhook.SetHook(func(point int, args []interface{}) {
+		ev := VerifEvent{Point: point}
+		nbar := 0
+		for _, a := range args {
+			switch v := a.(type) {
+			case *Bar:
+				if nbar == 0 {
+					ev.Bar = v
+				} else {
+					ev.Bar2 = v
+				}
+				nbar++
+			case int:
+				ev.Ints = append(ev.Ints, int64(v))
+			case int64:
+				ev.Ints = append(ev.Ints, v)
+			case uint:
+				ev.Ints = append(ev.Ints, int64(v))
+			case bool:
+				ev.Ints = append(ev.Ints, verifB2i(v))
+			case string:
+				ev.Str = v
+			case pushData:
+				ev.Bar = v.bar
+				nbar++
+				ev.Ints = append(ev.Ints, verifB2i(v.sync))
+			case fixData:
+				ev.Bar = v.bar
+				nbar++
+				ev.Ints = append(ev.Ints, int64(v.priority), verifB2i(v.lazy), int64(v.bar.index))
+			case iterData:
+				ev.Ints = append(ev.Ints, verifB2i(v.iterPop != nil))
+			case chan int:
+				ev.Ch = reflect.ValueOf(v).Pointer()
+			case []chan int:
+				for _, ch := range v {
+					ev.Col = append(ev.Col, reflect.ValueOf(ch).Pointer())
+				}
+			}
+		}
+		f(ev)
+	})
+}
+
+// VerifSetTick installs a channel the auto refresh listener listens on
+// in addition to its ticker.
+func VerifSetTick(ch chan time.Time) { verifhook.SetTick(ch) }
